@@ -59,6 +59,21 @@ Proof.
   - cbn [oexec app] in *. injection H as <-. destruct (step s x) as [[? ?]|]; reflexivity.
   - cbn [oexec app] in *. destruct (step s a) as [[sa ya]|]; [|discriminate]. apply IH, H.
 Qed.
+Lemma oexec_app s a b : oexec s (a ++ b) = match oexec s a with Some m => oexec m b | None => None end.
+Proof.
+  revert s; induction a as [|x a IH]; intros s; cbn [oexec app]; [reflexivity|].
+  destruct (step s x) as [[s' y]|]; [apply IH|reflexivity].
+Qed.
+Lemma orun_app s a b : orun s (a ++ b) =
+  match orun s a, oexec s a with
+  | Some y1, Some m => match orun m b with Some y2 => Some (y1 ++ y2) | None => None end
+  | _, _ => None end.
+Proof.
+  revert s; induction a as [|x a IH]; intros s; cbn [orun oexec app].
+  - destruct (orun s b); reflexivity.
+  - destruct (step s x) as [[s' y]|]; [|reflexivity]. rewrite IH.
+    destruct (orun s' a), (oexec s' a); try reflexivity. destruct (orun s0 b); reflexivity.
+Qed.
 End OMachine.
 
 Definition omap_outputs {Y} (o : option (list Y)) : option (list Y) := o.
